@@ -407,9 +407,37 @@ func c03Exec(in []string) (out []string) {
 		_ = mw.Close()
 		body, ctype = &buf, mw.FormDataContentType()
 	}
+	// decoys: the same name carrying another text in a location the parameter is NOT declared in
+	// (a parameter is looked up under the rules of its own location only); switched on for a third
+	// of the inputs, chosen by a checksum of the input line so that a case replays identically
+	sum := 0
+	for _, f := range in {
+		for i := 0; i < len(f); i++ {
+			sum += int(f[i])
+		}
+	}
+	decoy := sum%3 == 0 && sentKey != ""
+	decoyHeader := false
+	if decoy {
+		dq := url.Values{}
+		dq.Add(sentKey, "decoy-99")
+		switch d.in {
+		case "query":
+			decoyHeader = true
+		case "header", "path", "form", "mform":
+			if strings.Contains(target, "?") {
+				target += "&" + dq.Encode()
+			} else {
+				target += "?" + dq.Encode()
+			}
+		}
+	}
 	req := httptest.NewRequest(method, "http://srv.test"+target, body)
 	if ctype != "" {
 		req.Header.Set("Content-Type", ctype)
+	}
+	if decoyHeader {
+		req.Header.Set(sentKey, "decoy-99")
 	}
 	if d.in == "header" && sent {
 		for _, v := range values {
